@@ -53,6 +53,17 @@ fn reference_scan(d: Dialect, tpl: &str) -> Result<Vec<Seg>, String> {
                 i += 2;
                 continue;
             }
+            if d == Dialect::Postgres && i > 0 && (cs[i - 1].is_alphanumeric() || cs[i - 1] == '_') && !cur.is_empty() && cur.ends_with(cs[i - 1]) {
+                // Postgres identifiers may contain `$` after their first character (letters include non-ASCII
+                // ones): `café$1` is one word, not a word followed by a placeholder
+                cur.push(c);
+                i += 1;
+                while i < cs.len() && (cs[i].is_alphanumeric() || cs[i] == '_' || cs[i] == '$') {
+                    cur.push(cs[i]);
+                    i += 1;
+                }
+                continue;
+            }
             if d == Dialect::Postgres {
                 let mut j = i + 1;
                 while j < cs.len() && cs[j].is_ascii_digit() {
@@ -464,7 +475,13 @@ pub fn check(ctx: &Ctx, rep: &mut Report) {
             let mut nph = 0;
             let mut labels = vec![];
             for k in &ks {
-                if *k == NPIECES {
+                if *k == NPIECES && d == Dialect::Postgres && rng.coin() {
+                    // a word that contains `$<digits>`: one identifier on Postgres, nothing to substitute
+                    t.push(' ');
+                    t.push_str(*rng.pick(&["abc$1", "caf\u{e9}$1", "ma\u{df}_$2", "x1$1$2"]));
+                    t.push(' ');
+                    labels.push("word-containing-dollar-digits");
+                } else if *k == NPIECES {
                     // bracket piece: SQLite quoted identifier / Postgres subscript with a placeholder
                     match d {
                         Dialect::Sqlite => {
